@@ -332,7 +332,7 @@ func runRestStep(sv *restServer, s restStep) (labels []string, nt bool, err erro
 		got, _ := r.JSON["valid"].(bool)
 		// where the window would reach below step / counter 0 or the period is astronomically large, the independent window
 		// set is not defined (C03 / C04 leave that corner open); the service must still give the LIBRARY's verdict
-		corner := centre < skew || p > 1<<40
+		corner := centre < skew || p > 1<<32
 		if corner {
 			labels = append(labels, "corner-library-only")
 			want = lib
